@@ -44,25 +44,24 @@ Proof.
 Qed.
 
 (* the rebuild looks at the log only through log_get *)
-Lemma rebuild_ext o l1 l2 om :
+Lemma rebuild_ext o l1 l2 :
   (forall id, log_get l1 id = log_get l2 id) ->
-  forall items lfs st any, rebuild_items o l1 om items lfs st any = rebuild_items o l2 om items lfs st any.
+  forall items out lfs st any, rebuild_items o l1 out items lfs st any = rebuild_items o l2 out items lfs st any.
 Proof.
   intro H.
   apply (forest_mind
-           (fun t => match t with Leaf _ => True | Node g => forall lfs st any, rebuild_items o l1 om g lfs st any = rebuild_items o l2 om g lfs st any end)
-           (fun f => forall lfs st any, rebuild_items o l1 om f lfs st any = rebuild_items o l2 om f lfs st any)).
+           (fun t => match t with Leaf _ => True | Node g => forall out lfs st any, rebuild_items o l1 out g lfs st any = rebuild_items o l2 out g lfs st any end)
+           (fun f => forall out lfs st any, rebuild_items o l1 out f lfs st any = rebuild_items o l2 out f lfs st any)).
   - intros; exact I.
   - intros f IH. exact IH.
-  - intros lfs st any. destruct lfs; reflexivity.
-  - intros k t IHt rest IHr lfs st any. cbn [rebuild_items].
+  - intros out lfs st any. destruct lfs; reflexivity.
+  - intros k t IHt rest IHr out lfs st any. cbn [rebuild_items].
     destruct lfs as [|l lrest]; [reflexivity|].
     destruct l as [id|sub].
     + rewrite H. destruct (log_get l2 id) as [[v|]|]; [apply IHr|apply IHr|reflexivity].
     + destruct t as [v|g]; [reflexivity|]. rewrite IHt.
-      destruct (rebuild_items o l2 om g sub _ false) as [[st' a']| |]; cbn [rbbind]; [|reflexivity|reflexivity].
-      destruct (finish_rebuild o (fst (st', a')) (snd (st', a'))) as [st'' ret].
-      destruct (om && negb (o_inplace o)); destruct ret; try reflexivity; apply IHr.
+      destruct (rebuild_items o l2 _ g sub _ false) as [[st' a']|]; cbn [rbbind]; [|reflexivity].
+      destruct (finish_rebuild o g (fst (st', a')) (snd (st', a'))); apply IHr.
 Qed.
 
 Theorem mt_apply_same_completed fn o d con self others out pi1 pi2 :
@@ -71,7 +70,7 @@ Theorem mt_apply_same_completed fn o d con self others out pi1 pi2 :
 Proof.
   intro H. unfold mt_apply.
   destruct (flat_items o d con [] self others self 0) as [[tasks lfs]|e]; [|reflexivity].
-  rewrite (rebuild_ext o _ _ _ (log_get_same fn tasks pi1 pi2 H)). reflexivity.
+  rewrite (rebuild_ext o _ _ (log_get_same fn tasks pi1 pi2 H)). reflexivity.
 Qed.
 
 Theorem mt_apply_order_free fn o d con self others out pi1 pi2 :
@@ -80,21 +79,14 @@ Theorem mt_apply_order_free fn o d con self others out pi1 pi2 :
 Proof.
   intro P. apply mt_apply_same_completed. intro id. split; apply Permutation_in; [assumption|now apply Permutation_sym].
 Qed.
-Definition unopt (r : option forest) : forest := match r with Some f => f | None => FNil end.
 
+(* ------------------------------------------------------------------ multithreaded = single-threaded, all options *)
 Section Fusion.
 Variable fn : userfn.
 Variable o : opts.
-Variable b : bool.
-Hypothesis Hfe : o_fe o = Some b.
 
-Lemma finish_agree self res any :
-  finish_apply o self res any = (if snd (finish_rebuild o (unopt res) any) then Some (unopt res) else None)
-  /\ fst (finish_rebuild o (unopt res) any) = unopt res.
-Proof.
-  unfold finish_apply, finish_rebuild. rewrite Hfe. cbn [fst snd].
-  destruct b, any; cbn; split; reflexivity.
-Qed.
+Lemma finish_agree self res any : finish_apply o self res any = finish_rebuild o self (unopt res) any.
+Proof. unfold finish_apply, finish_rebuild, unopt. destruct (o_fe o) as [[|]|]; reflexivity. Qed.
 
 Definition log_ok (log : list (nat * option tree)) (base : nat) (tasks : list task) : Prop :=
   forall i t, nth_error tasks i = Some t -> log_get log (base + i) = Some (exec fn t).
@@ -107,13 +99,13 @@ Proof.
 Qed.
 
 Definition fusion_at (items : forest) : Prop :=
-  forall con prefix self others base res any,
-  match flat_items o NoDefault con prefix self others items base with
-  | ARaised e => apply_items fn o NoDefault con prefix self others None items res any = ARaised e
+  forall d con prefix self others out base res any,
+  match flat_items o d con prefix self others items base with
+  | ARaised e => apply_items fn o d con prefix self others out items res any = ARaised e
   | AOk (tasks, lfs) =>
       forall log, log_ok log base tasks ->
-      exists res' any', apply_items fn o NoDefault con prefix self others None items res any = AOk (res', any')
-                        /\ rebuild_items o log false items lfs (unopt res) any = RbOk (unopt res', any')
+      exists res' any', apply_items fn o d con prefix self others out items res any = AOk (res', any')
+                        /\ rebuild_items o log out items lfs (unopt res) any = RbOk (unopt res', any')
   end.
 
 Lemma fusion : forall items, fusion_at items.
@@ -121,64 +113,62 @@ Proof.
   apply (forest_mind (fun t => match t with Leaf _ => True | Node g => fusion_at g end) fusion_at).
   - intros; exact I.
   - intros f IH; exact IH.
-  - intros con prefix self others base res any. cbn [flat_items]. intros log _. exists res, any. split; reflexivity.
-  - intros k t IHt rest IHr con prefix self others base res any.
+  - intros d con prefix self others out base res any. cbn [flat_items]. intros log _. exists res, any. split; reflexivity.
+  - intros k t IHt rest IHr d con prefix self others out base res any.
     cbn [flat_items apply_items].
     (* the task case, shared by leaves and by call_on_nested nodes *)
     assert (Htask :
-      match abind (abind (others_leaf NoDefault others k) (fun ov => AOk ([{| tk_key := keyarg o prefix k; tk_item := t; tk_others := ov |}], LFut base)))
-                  (fun h => abind (flat_items o NoDefault con prefix self others rest (base + List.length (fst h)))
+      match abind (abind (others_leaf d others k) (fun ov => AOk ([{| tk_key := keyarg o prefix k; tk_item := t; tk_others := ov |}], LFut base)))
+                  (fun h => abind (flat_items o d con prefix self others rest (base + List.length (fst h)))
                                   (fun r => AOk ((fst h ++ fst r)%list, snd h :: snd r))) with
       | ARaised e =>
-          abind (abind (others_leaf NoDefault others k) (fun ov => AOk (fn (keyarg o prefix k) t ov)))
+          abind (abind (others_leaf d others k) (fun ov => AOk (fn (keyarg o prefix k) t ov)))
                 (fun t0 => match t0 with
-                           | Some v => apply_items fn o NoDefault con prefix self others None rest (set_result res k v) true
-                           | None => apply_items fn o NoDefault con prefix self others None rest res any end) = ARaised e
+                           | Some v => apply_items fn o d con prefix self others out rest (set_result res k v) true
+                           | None => apply_items fn o d con prefix self others out rest res any end) = ARaised e
       | AOk (tasks, lfs) =>
           forall log, log_ok log base tasks ->
           exists res' any',
-            abind (abind (others_leaf NoDefault others k) (fun ov => AOk (fn (keyarg o prefix k) t ov)))
+            abind (abind (others_leaf d others k) (fun ov => AOk (fn (keyarg o prefix k) t ov)))
                 (fun t0 => match t0 with
-                           | Some v => apply_items fn o NoDefault con prefix self others None rest (set_result res k v) true
-                           | None => apply_items fn o NoDefault con prefix self others None rest res any end) = AOk (res', any')
-            /\ rebuild_items o log false (FCons k t rest) lfs (unopt res) any = RbOk (unopt res', any')
+                           | Some v => apply_items fn o d con prefix self others out rest (set_result res k v) true
+                           | None => apply_items fn o d con prefix self others out rest res any end) = AOk (res', any')
+            /\ rebuild_items o log out (FCons k t rest) lfs (unopt res) any = RbOk (unopt res', any')
       end).
-    { destruct (others_leaf NoDefault others k) as [ov|e]; cbn [abind fst snd List.length]; [|reflexivity].
+    { destruct (others_leaf d others k) as [ov|e]; cbn [abind fst snd List.length]; [|reflexivity].
       destruct (fn (keyarg o prefix k) t ov) as [v|] eqn:Efn.
-      - specialize (IHr con prefix self others (base + 1) (set_result res k v) true).
-        destruct (flat_items o NoDefault con prefix self others rest (base + 1)) as [[tr lr]|e]; cbn [abind fst snd]; [|exact IHr].
+      - specialize (IHr d con prefix self others out (base + 1) (set_result res k v) true).
+        destruct (flat_items o d con prefix self others rest (base + 1)) as [[tr lr]|e]; cbn [abind fst snd]; [|exact IHr].
         intros log Hlog. apply (log_ok_app log base [_] tr) in Hlog. destruct Hlog as [H1 H2]. cbn [List.length] in H2.
         destruct (IHr log H2) as (res' & any' & Ha & Hb). exists res', any'. split; [exact Ha|].
         cbn [rebuild_items]. specialize (H1 0 _ eq_refl). rewrite Nat.add_0_r in H1. rewrite H1.
         unfold exec. cbn [tk_key tk_item tk_others]. rewrite Efn. exact Hb.
-      - specialize (IHr con prefix self others (base + 1) res any).
-        destruct (flat_items o NoDefault con prefix self others rest (base + 1)) as [[tr lr]|e]; cbn [abind fst snd]; [|exact IHr].
+      - specialize (IHr d con prefix self others out (base + 1) res any).
+        destruct (flat_items o d con prefix self others rest (base + 1)) as [[tr lr]|e]; cbn [abind fst snd]; [|exact IHr].
         intros log Hlog. apply (log_ok_app log base [_] tr) in Hlog. destruct Hlog as [H1 H2]. cbn [List.length] in H2.
         destruct (IHr log H2) as (res' & any' & Ha & Hb). exists res', any'. split; [exact Ha|].
         cbn [rebuild_items]. specialize (H1 0 _ eq_refl). rewrite Nat.add_0_r in H1. rewrite H1.
         unfold exec. cbn [tk_key tk_item tk_others]. rewrite Efn. exact Hb. }
     destruct t as [v|g]; [exact Htask|]. destruct con; [exact Htask|]. clear Htask.
     (* a nested tensordict *)
-    destruct (others_node NoDefault self others k) as [others'|e]; cbn [abind]; [|reflexivity].
-    cbn [out_child].
-    specialize (IHt false (prefix ++ [k])%list g others' base (if o_inplace o then Some g else None) false).
-    destruct (flat_items o NoDefault false (prefix ++ [k]) g others' g base) as [[tg lg]|e]; cbn [abind fst snd].
+    destruct (others_node d self others k) as [others'|e]; cbn [abind]; [|reflexivity].
+    specialize (IHt d false (prefix ++ [k])%list g others' (out_child out k) base
+                    (if o_inplace o then Some g else out_child out k) false).
+    destruct (flat_items o d false (prefix ++ [k]) g others' g base) as [[tg lg]|e]; cbn [abind fst snd].
     2:{ rewrite IHt. reflexivity. }
-    (* what the nested level returns, in both forms *)
-    assert (Hinit : unopt (if o_inplace o then Some g else None) = (if o_inplace o then g else FNil)) by (destruct (o_inplace o); reflexivity).
-    destruct (flat_items o NoDefault false prefix self others rest (base + List.length tg)) as [[tr lr]|e] eqn:Er; cbn [abind fst snd].
+    assert (Hinit : unopt (if o_inplace o then Some g else out_child out k) = (if o_inplace o then g else unopt (out_child out k)))
+      by (destruct (o_inplace o); reflexivity).
+    destruct (flat_items o d false prefix self others rest (base + List.length tg)) as [[tr lr]|e] eqn:Er; cbn [abind fst snd].
     + intros log Hlog. apply log_ok_app in Hlog. destruct Hlog as [H1 H2].
       destruct (IHt log H1) as (rg & ag & Hag & Hbg). rewrite Hag. cbn [abind fst snd].
-      destruct (finish_agree g rg ag) as [Hf1 Hf2].
-      cbn [rebuild_items]. cbn [andb]. rewrite <- Hinit, Hbg. cbn [rbbind fst snd].
-      destruct (finish_rebuild o (unopt rg) ag) as [st' ret] eqn:Efin. cbn [fst snd] in Hf1, Hf2. subst st'.
-      rewrite Hf1. destruct ret; cbn [option_map].
-      * specialize (IHr false prefix self others (base + List.length tg) (set_result res k (Node (unopt rg))) true).
+      cbn [rebuild_items]. rewrite <- Hinit, Hbg. cbn [rbbind fst snd].
+      rewrite finish_agree.
+      destruct (finish_rebuild o g (unopt rg) ag) as [st'|]; cbn [option_map].
+      * specialize (IHr d false prefix self others out (base + List.length tg) (set_result res k (Node st')) true).
         rewrite Er in IHr. destruct (IHr log H2) as (res' & any' & Ha & Hb). exists res', any'. split; assumption.
-      * specialize (IHr false prefix self others (base + List.length tg) res any).
+      * specialize (IHr d false prefix self others out (base + List.length tg) res any).
         rewrite Er in IHr. destruct (IHr log H2) as (res' & any' & Ha & Hb). exists res', any'. split; assumption.
-    + (* the rest raises: the single-threaded form raises the same error (after having run the nested level) *)
-      (* nested level: need its apply result to exist; use any log that satisfies the tasks: the canonical one *)
+    + (* the rest raises: the single-threaded form raises the same error, after the nested level *)
       set (log0 := run_tasks fn (repeat {| tk_key := None; tk_item := Leaf 0; tk_others := [] |} base ++ tg) (seq 0 (base + List.length tg))).
       assert (H1 : log_ok log0 base tg).
       { intros i t Hi. unfold log0. rewrite log_get_run.
@@ -189,21 +179,20 @@ Proof.
         apply existsb_eqb_in in H. rewrite H. reflexivity. }
       destruct (IHt log0 H1) as (rg & ag & Hag & _). rewrite Hag. cbn [abind fst snd].
       destruct (option_map Node (finish_apply o g rg ag)).
-      * specialize (IHr false prefix self others (base + List.length tg) (set_result res k t) true). now rewrite Er in IHr.
-      * specialize (IHr false prefix self others (base + List.length tg) res any). now rewrite Er in IHr.
+      * specialize (IHr d false prefix self others out (base + List.length tg) (set_result res k t) true). now rewrite Er in IHr.
+      * specialize (IHr d false prefix self others out (base + List.length tg) res any). now rewrite Er in IHr.
 Qed.
 End Fusion.
 
 (* every task completes: all ids below the number of submitted tasks occur in the completion order *)
-Theorem mt_eq_st : forall fn o b con self others pi,
-  o_fe o = Some b ->
-  (forall tasks lfs, flat_items o NoDefault con [] self others self 0 = AOk (tasks, lfs) ->
+Theorem mt_eq_st : forall fn o d con self others out pi,
+  (forall tasks lfs, flat_items o d con [] self others self 0 = AOk (tasks, lfs) ->
                      forall id, id < List.length tasks -> In id pi) ->
-  mt_apply fn o NoDefault con self others None pi = st_apply fn o NoDefault con self others None.
+  mt_apply fn o d con self others out pi = st_apply fn o d con self others out.
 Proof.
-  intros fn o b con self others pi Hfe Hall. unfold mt_apply, st_apply, apply_level.
-  pose proof (fusion fn o b Hfe self con [] self others 0 (if o_inplace o then Some self else None) false) as F.
-  destruct (flat_items o NoDefault con [] self others self 0) as [[tasks lfs]|e]; cbn [abind].
+  intros fn o d con self others out pi Hall. unfold mt_apply, st_apply, apply_level.
+  pose proof (fusion fn o self d con [] self others out 0 (if o_inplace o then Some self else out) false) as F.
+  destruct (flat_items o d con [] self others self 0) as [[tasks lfs]|e]; cbn [abind].
   2:{ rewrite F. reflexivity. }
   specialize (Hall tasks lfs eq_refl).
   destruct (F (run_tasks fn tasks pi)) as (res' & any' & Ha & Hb).
@@ -211,10 +200,8 @@ Proof.
     assert (Hin : In i pi) by (apply Hall; apply nth_error_Some; congruence).
     apply existsb_eqb_in in Hin. rewrite Hin. reflexivity. }
   rewrite Ha. cbn [abind fst snd].
-  assert (Hinit : unopt (if o_inplace o then Some self else None) = (if o_inplace o then self else FNil)) by (destruct (o_inplace o); reflexivity).
-  rewrite <- Hinit, Hb. cbn [fst snd].
-  destruct (finish_agree o b Hfe self res' any') as [Hf1 Hf2].
-  destruct (finish_rebuild o (unopt res') any') as [st ret]. cbn [fst snd] in *. subst st. rewrite Hf1. reflexivity.
+  assert (Hinit : unopt (if o_inplace o then Some self else out) = (if o_inplace o then self else unopt out)) by (destruct (o_inplace o); reflexivity).
+  rewrite <- Hinit, Hb. cbn [fst snd]. now rewrite finish_agree.
 Qed.
 
 (* number of tasks submitted by the flat phase *)
@@ -241,151 +228,31 @@ Proof.
       intro H. injection H as <- <-. cbn [app List.length]. rewrite (IHr _ _ _ _ _ _ _ _ E). reflexivity. }
     destruct t as [v|g]; [apply Htask|]. destruct con; [apply Htask|]. clear Htask.
     destruct (others_node d self others k); cbn [abind]; [|discriminate].
-    destruct (flat_items o NoDefault false _ g _ g base) as [[tg lg]|] eqn:Eg; cbn [abind fst snd]; [|discriminate].
+    destruct (flat_items o d false _ g _ g base) as [[tg lg]|] eqn:Eg; cbn [abind fst snd]; [|discriminate].
     destruct (flat_items o d false prefix self others rest _) as [[tr lr]|] eqn:E; cbn [abind fst snd]; [|discriminate].
     intro H. injection H as <- <-. rewrite app_length, (IHt _ _ _ _ _ _ _ _ Eg), (IHr _ _ _ _ _ _ _ _ E). reflexivity.
 Qed.
 
-Theorem mt_eq_st_all_complete : forall fn o b con self others pi,
-  o_fe o = Some b ->
+Theorem mt_eq_st_all_complete : forall fn o d con self others out pi,
   (forall id, id < ntasks con self -> In id pi) ->
-  mt_apply fn o NoDefault con self others None pi = st_apply fn o NoDefault con self others None.
+  mt_apply fn o d con self others out pi = st_apply fn o d con self others out.
 Proof.
-  intros fn o b con self others pi Hfe Hall. apply (mt_eq_st fn o b con self others pi Hfe).
+  intros fn o d con self others out pi Hall. apply mt_eq_st.
   intros tasks lfs Hf id Hid. apply Hall. now rewrite <- (flat_length _ _ _ _ _ _ _ _ _ _ Hf).
-Qed.
-(* ------------------------------------------------------------------ default= : harmless when nothing is missing *)
-Definition present (others : list forest) (k : string) : Prop := Forall (fun o => fget o k <> None) others.
-
-Lemma others_leaf_present d others k : present others k -> others_leaf d others k = others_leaf NoDefault others k.
-Proof.
-  induction 1 as [|o r Ho Hr IH]; cbn [others_leaf]; [reflexivity|].
-  destruct (fget o k); [|congruence]. now rewrite IH.
-Qed.
-
-Lemma others_node_present d self self' others k : present others k -> others_node d self others k = others_node NoDefault self' others k.
-Proof.
-  induction 1 as [|o r Ho Hr IH]; cbn [others_node]; [reflexivity|].
-  destruct (fget o k) as [[v|g]|]; [reflexivity| |congruence]. now rewrite IH.
-Qed.
-
-(* every key of the tree is present in every other operand, level by level *)
-Fixpoint covers (others : list forest) (items : forest) {struct items} : Prop :=
-  match items with
-  | FNil => True
-  | FCons k t rest =>
-      present others k /\
-      match t with
-      | Leaf _ => True
-      | Node g => forall others', others_node NoDefault FNil others k = AOk others' -> covers others' g
-      end /\
-      covers others rest
-  end.
-
-Lemma apply_default_irrelevant fn o : forall items con prefix self others out res any,
-  covers others items ->
-  apply_items fn o Default con prefix self others out items res any
-  = apply_items fn o NoDefault con prefix self others out items res any.
-Proof.
-  apply (forest_mind
-    (fun t => match t with Leaf _ => True | Node g =>
-       forall con prefix self others out res any, covers others g ->
-       apply_items fn o Default con prefix self others out g res any = apply_items fn o NoDefault con prefix self others out g res any end)
-    (fun items => forall con prefix self others out res any, covers others items ->
-       apply_items fn o Default con prefix self others out items res any = apply_items fn o NoDefault con prefix self others out items res any)).
-  - intros; exact I.
-  - intros f IH; exact IH.
-  - reflexivity.
-  - intros k t IHt rest IHr con prefix self others out res any (Hp & Ht & Hr). cbn [apply_items].
-    rewrite (others_leaf_present Default others k Hp).
-    assert (Hrest : forall r a, apply_items fn o Default con prefix self others out rest r a
-                              = apply_items fn o NoDefault con prefix self others out rest r a) by (intros; now apply IHr).
-    destruct t as [v|g].
-    + destruct (others_leaf NoDefault others k); cbn [abind]; [|reflexivity]. destruct (fn _ _ _); apply Hrest.
-    + destruct con.
-      * destruct (others_leaf NoDefault others k); cbn [abind]; [|reflexivity]. destruct (fn _ _ _); apply Hrest.
-      * rewrite (others_node_present Default self FNil others k Hp), (others_node_present NoDefault self FNil others k Hp).
-        destruct (others_node NoDefault FNil others k) as [others'|] eqn:E; cbn [abind]; [|reflexivity].
-        rewrite IHt by (apply Ht; reflexivity).
-        destruct (apply_items fn o NoDefault false _ g others' _ g _ false); cbn [abind]; [|reflexivity].
-        destruct (option_map Node _); apply Hrest.
-Qed.
-
-Lemma flat_default_irrelevant o : forall items con prefix self others base,
-  covers others items ->
-  flat_items o Default con prefix self others items base = flat_items o NoDefault con prefix self others items base.
-Proof.
-  induction items as [|k t rest IH] using forest_ind; [reflexivity|].
-  intros con prefix self others base (Hp & Ht & Hr). cbn [flat_items].
-  rewrite (others_leaf_present Default others k Hp), (others_node_present Default self self others k Hp).
-  destruct t as [v|g].
-  - destruct (others_leaf NoDefault others k); cbn [abind]; [|reflexivity]. now rewrite IH.
-  - destruct con.
-    + destruct (others_leaf NoDefault others k); cbn [abind]; [|reflexivity]. now rewrite IH.
-    + destruct (others_node NoDefault self others k); cbn [abind]; [|reflexivity].
-      destruct (flat_items o NoDefault false _ g _ g base); cbn [abind]; [|reflexivity]. now rewrite IH.
-Qed.
-
-Theorem mt_eq_st_default_covered : forall fn o b con self others pi,
-  o_fe o = Some b -> covers others self ->
-  (forall id, id < ntasks con self -> In id pi) ->
-  mt_apply fn o Default con self others None pi = st_apply fn o Default con self others None.
-Proof.
-  intros fn o b con self others pi Hfe Hc Hall.
-  transitivity (mt_apply fn o NoDefault con self others None pi).
-  { unfold mt_apply. now rewrite (flat_default_irrelevant o self con [] self others 0 Hc). }
-  rewrite (mt_eq_st_all_complete fn o b con self others pi Hfe Hall).
-  unfold st_apply, apply_level.
-  now rewrite (apply_default_irrelevant fn o self con [] self others None _ false Hc).
 Qed.
 
 Open Scope string_scope.
-(* ------------------------------------------------------------------ where the two forms differ (findings S16, S15, C12-b) *)
 Definition inc_fn : userfn := fun _ item _ => match item with Leaf v => Some (Leaf (v + 1)%Z) | Node _ => None end.
 Definition none_fn : userfn := fun _ _ _ => None.
 Definition ex_self : forest := FCons "a" (Leaf 1) (FCons "n" (Node (FCons "c" (Leaf 2) FNil)) FNil).
 Definition ex_opts (fe : option bool) : opts := {| o_named := false; o_nested_keys := false; o_inplace := false; o_fe := fe |}.
 
-Theorem mt_out_nested_refuted :
-  exists fn o self out pi,
-    (forall id, id < ntasks false self -> In id pi) /\
-    mt_apply fn o NoDefault false self [] (Some out) pi = OCyclic /\
-    exists r, st_apply fn o NoDefault false self [] (Some out) = ORet (Some r).
-Proof.
-  exists inc_fn, (ex_opts (Some false)), ex_self, ex_self, [0; 1]. split; [|split].
-  - cbn. intros id H. destruct id as [|[|]]; [now left|right; now left|lia].
-  - vm_compute. reflexivity.
-  - eexists. vm_compute. reflexivity.
-Qed.
-
-Theorem mt_default_nested_refuted :
-  exists fn o self other pi,
-    (forall id, id < ntasks false self -> In id pi) /\
-    mt_apply fn o Default false self [other] None pi = ORaise AKey /\
-    exists r, st_apply fn o Default false self [other] None = ORet (Some r).
-Proof.
-  exists inc_fn, (ex_opts (Some false)), ex_self, (FCons "a" (Leaf 5) (FCons "n" (Node FNil) FNil)), [0; 1]. split; [|split].
-  - cbn. intros id H. destruct id as [|[|]]; [now left|right; now left|lia].
-  - vm_compute. reflexivity.
-  - eexists. vm_compute. reflexivity.
-Qed.
-
-Theorem mt_filter_empty_none_refuted :
-  exists fn o self pi,
-    (forall id, id < ntasks false self -> In id pi) /\
-    mt_apply fn o NoDefault false self [] None pi <> st_apply fn o NoDefault false self [] None.
-Proof.
-  exists none_fn, (ex_opts None), ex_self, [0; 1]. split.
-  - cbn. intros id H. destruct id as [|[|]]; [now left|right; now left|lia].
-  - vm_compute. discriminate.
-Qed.
-
-(* ------------------------------------------------------------------ memmap writers *)
 Lemma path_eqb_eq a b : path_eqb a b = true <-> a = b.
 Proof. unfold path_eqb. destruct (list_eq_dec string_dec a b); split; congruence. Qed.
 Lemma path_eqb_refl a : path_eqb a a = true.
 Proof. now apply path_eqb_eq. Qed.
 
+(* ------------------------------------------------------------------ memmap writers *)
 Lemma aget_aset d p v q : aget (aset d p v) q = if path_eqb q p then Some v else aget d q.
 Proof.
   induction d as [|[r w] d IH]; cbn [aset aget].
